@@ -2173,6 +2173,37 @@ int cif_value_copy_char(cif_value_tp *value, const UChar *text) {
     }
 }
 
+/*
+ * Switches the numeric locale to "C", returning a dynamically-allocated copy of the name of the locale previously
+ * in effect, or NULL if the locale could not be queried, copied, or changed (in which case it is left unchanged).
+ * The result is to be passed to restore_numeric_locale(), which releases it.
+ */
+static char *set_c_numeric_locale(void) {
+    char *current = setlocale(LC_NUMERIC, NULL);
+    char *saved;
+
+    if (current == NULL) {
+        return NULL;
+    }
+
+    /* the string returned by setlocale() may be overwritten by subsequent calls, so it must be copied */
+    saved = (char *) malloc(strlen(current) + 1);
+    if (saved != NULL) {
+        strcpy(saved, current);
+        if (setlocale(LC_NUMERIC, "C") == NULL) {
+            free(saved);
+            saved = NULL;
+        }
+    }
+
+    return saved;
+}
+
+static void restore_numeric_locale(char *saved) {
+    (void) setlocale(LC_NUMERIC, saved);
+    free(saved);
+}
+
 int cif_value_init_numb(cif_value_tp *n, double val, double su, int scale, int max_leading_zeroes) {
     if ((su < 0.0) || (-scale < LEAST_DBL_10_DIGIT) || (-scale > DBL_MAX_10_EXP) || (max_leading_zeroes < 0)) {
         return CIF_ARGUMENT_ERROR;
@@ -2180,7 +2211,7 @@ int cif_value_init_numb(cif_value_tp *n, double val, double su, int scale, int m
         FAILURE_HANDLING;
         struct numb_value_s *numb = &(n->as_numb);
         int most_significant_place = MSP(val);
-        char *locale = setlocale(LC_NUMERIC, "C");
+        char *locale = set_c_numeric_locale();
 
         if (locale != NULL) {
             char *digit_buf = to_digits(val, scale);
@@ -2235,7 +2266,7 @@ int cif_value_init_numb(cif_value_tp *n, double val, double su, int scale, int m
                     numb->scale = scale;
 
                     /* restore the original locale */
-                    setlocale(LC_NUMERIC, locale);
+                    restore_numeric_locale(locale);
 
                     return CIF_OK;
                 }
@@ -2247,7 +2278,7 @@ int cif_value_init_numb(cif_value_tp *n, double val, double su, int scale, int m
             }
 
             /* restore the original locale */
-            setlocale(LC_NUMERIC, locale);
+            restore_numeric_locale(locale);
         }
 
         FAILURE_TERMINUS;
@@ -2282,10 +2313,11 @@ int cif_value_autoinit_numb(cif_value_tp *numb, double val, double su, unsigned 
 
             return cif_value_init_numb(numb, val, su, scale, DEFAULT_MAX_LEAD_ZEROES);
         } else {
-            int result_code = CIF_INTERNAL_ERROR;
+            /* the result if the numeric locale cannot be saved and switched, as in cif_value_init_numb() */
+            int result_code = CIF_ERROR;
 
             /* number formatting and parsing must be done in the C locale to ensure portability */
-            char *locale = setlocale(LC_NUMERIC, "C");
+            char *locale = set_c_numeric_locale();
 
             if (locale != NULL) {
                 char buf[BUF_SIZE];
@@ -2304,6 +2336,8 @@ int cif_value_autoinit_numb(cif_value_tp *numb, double val, double su, unsigned 
                     for (exponent_digits = 2; exp_max > 99; exp_max /= 10) exponent_digits += 1;
                 }
 #endif
+
+                result_code = CIF_INTERNAL_ERROR;
 
                 /* determine the number of significant digits in the su_rule (which is known to be positive here) */
                 rule_digits = (int) log10(su_rule + 0.5) + 1;
@@ -2339,7 +2373,7 @@ int cif_value_autoinit_numb(cif_value_tp *numb, double val, double su, unsigned 
                     result_code = cif_value_init_numb(numb, val, su, scale, DEFAULT_MAX_LEAD_ZEROES);
                 } /* else the formatted su overflowed, despite our checks.  The su_rule must be very large. */
 
-                (void) setlocale(LC_NUMERIC, locale);
+                restore_numeric_locale(locale);
             }
 
             return result_code;
